@@ -8,7 +8,9 @@ trap 'git -C /repo checkout -- . ; git -C /repo clean -fdq -- src tests 2>/dev/n
 cd /verif
 for id in "$@"; do
   echo "=== $id with $(basename $(dirname $P))/$(basename $P)"
+  cp evidence/$id.json /tmp/seed_test.$$.ev 2>/dev/null
   ./check $id --tier ${TIER:-quick} > /tmp/seed_test.$$.log 2>&1; rc=$?
+  cp /tmp/seed_test.$$.ev evidence/$id.json 2>/dev/null; rm -f /tmp/seed_test.$$.ev
   tail -8 /tmp/seed_test.$$.log; rm -f /tmp/seed_test.$$.log
   echo "exit=$rc"
 done
